@@ -25,6 +25,12 @@ after o, if o falls in a gap); it never consists only of records before o.
                         (up to the next restart): e.g. an offset in the hole while newer batches are buffered.
 * `search_lookup_misses_hole`  witness for the seeded change C04-r2-1: `Read`'s segment lookup rewritten with `sort.Search`
                         answers nothing for an offset in a hole between two retained segments; the coded lookup snaps forward.
+* `restore_rejects_committed_without_index`, `restore_rejects_after_index_loss`
+                        for EVERY log / listing / loss list / store offset: a listed segment below the store offset whose index object
+                        is unusable makes `RestoreFromS3` fail (the partition is not served);
+                        `restored_segments_indexed`: after a successful restore every registered segment has index entries.
+* `lenient_restore_no_progress`  witness for the seeded change C04-r3-1: a restore that registers such a segment without index
+                        entries makes `Read(1..3, 70)` answer batch 0 of a four-batch segment (cache on and off).
 * `old_livelock`        the code before the fix: three one-record batches in one segment, index
                         interval 100, `Read(2, 61)` returns exactly the batch with base 0 on the cached and on
                         the range-read path; the fixed code returns the batch with base 2.
@@ -264,6 +270,156 @@ theorem _root_.KafVerif.C04.search_lookup_misses_hole :
     findSegSearch (restoreAt holeLog 1).1.l.segs 1 = none ∧
     ((findSeg (restoreAt holeLog 1).1.l.segs 1).map fun r => (r.1.base, r.2)) = some (2, 2) ∧
     (read (restoreAt holeLog 1).1.l 1 61).2 = .data (patch ((parse (tiny 3)).getD ⟨0, 0, 0, []⟩) 2).bytes := by
+  decide
+
+/-! ### a committed segment whose index object is lost (seeded change C04-r3-1) -/
+
+theorem mem_insertSeg (s g : Seg) (l : List Seg) : g ∈ insertSeg s l ↔ g = s ∨ g ∈ l := by
+  induction l with
+  | nil => simp [insertSeg]
+  | cons x t ih =>
+    simp only [insertSeg]
+    split
+    · simp
+    · simp only [List.mem_cons, ih]
+      constructor
+      · rintro (h | h | h)
+        · exact Or.inr (Or.inl h)
+        · exact Or.inl h
+        · exact Or.inr (Or.inr h)
+      · rintro (h | h | h)
+        · exact Or.inr (Or.inl h)
+        · exact Or.inl h
+        · exact Or.inr (Or.inr h)
+
+theorem mem_sortSegs (g : Seg) (l : List Seg) : g ∈ sortSegs l ↔ g ∈ l := by
+  induction l with
+  | nil => simp [sortSegs]
+  | cons x t ih =>
+    have : sortSegs (x :: t) = insertSeg x (sortSegs t) := rfl
+    rw [this, mem_insertSeg, ih]; simp
+
+/-- the index loop fails as soon as ONE listed segment below the store offset has no usable index -/
+theorem scanIdx_none_of_committed (noIdx : List Int) (next : Int) (ss : List Seg) (g : Seg) (hg : g ∈ ss)
+    (hno : noIdx.contains g.base = true) (hlt : g.base < next) : scanIdx noIdx next ss = none := by
+  induction ss with
+  | nil => simp at hg
+  | cons x t ih =>
+    simp only [List.mem_cons] at hg
+    simp only [scanIdx]
+    rcases hg with rfl | hg
+    · rw [if_pos hno, if_neg (by omega)]
+    · split
+      · split
+        · exact ih hg
+        · rfl
+      · rw [ih hg]; rfl
+
+/-- **C04 (a committed segment is never served without its index).**  For EVERY log, S3 listing, set of unusable index objects and
+store offset: if some listed segment object with `base < store offset` (it holds committed offsets) has no usable index object, then
+`RestoreFromS3` fails — the partition is not opened, so no `Read` is ever answered from a segment registered without index entries
+(the no-index fallback `sliceFullSegmentData` ignores the fetch offset). -/
+theorem _root_.KafVerif.C04.restore_rejects_committed_without_index (x : LLog) (st : Int) (g : Seg) (hg : g ∈ x.l.s3)
+    (hno : x.noIdx.contains g.base = true) (hlt : g.base < st) : (restoreAt x st).2 = .err := by
+  unfold restoreAt
+  rw [scanIdx_none_of_committed x.noIdx st (sortSegs x.l.s3) g ((mem_sortSegs g _).mpr hg) hno hlt]
+
+theorem lose_keeps (b : Int) (g : Seg) (hgb : g.base = b) (a : Loss) (ha : a ≠ .seg b) (x : LLog) :
+    (g ∈ x.l.s3 → g ∈ (lose x a).l.s3) ∧ (g ∈ x.l.s3 → x.noIdx.contains b = true → (lose x a).noIdx.contains b = true) := by
+  cases a with
+  | index b' =>
+    simp only [lose, loseIndex]
+    split
+    · exact ⟨fun h => h, fun _ h => by simp at h ⊢; exact Or.inr h⟩
+    · exact ⟨fun h => h, fun _ h => h⟩
+  | seg b' =>
+    have hne : b ≠ b' := by intro h; apply ha; rw [h]
+    simp only [lose, loseSeg]
+    refine ⟨fun h => ?_, fun _ h => ?_⟩
+    · simp only [List.mem_filter]
+      exact ⟨h, by simp; omega⟩
+    · simp only [List.contains_eq_mem, List.mem_filter, decide_eq_true_eq] at h ⊢
+      exact ⟨h, by simp; omega⟩
+
+theorem lose_fold_keeps (b : Int) (g : Seg) (hgb : g.base = b) (losses : List Loss) (hl : ∀ a ∈ losses, a ≠ .seg b) (x : LLog)
+    (hg : g ∈ x.l.s3) :
+    g ∈ (losses.foldl lose x).l.s3 ∧ (x.noIdx.contains b = true → (losses.foldl lose x).noIdx.contains b = true) := by
+  induction losses generalizing x with
+  | nil => exact ⟨hg, fun h => h⟩
+  | cons a t ih =>
+    obtain ⟨k1, k2⟩ := lose_keeps b g hgb a (hl a (by simp)) x
+    obtain ⟨i1, i2⟩ := ih (fun a' ha' => hl a' (by simp [ha'])) (lose x a) (k1 hg)
+    exact ⟨i1, fun h => i2 (k2 hg h)⟩
+
+/-- **C04 (… in terms of what was lost).**  Any log `l` (in particular every reachable one), any list of lost objects: if the
+index object of a listed segment `g` is among the losses, its segment object is not, and the store offset is above `g.base`,
+the restore fails — whatever else is lost, in whatever order. -/
+theorem _root_.KafVerif.C04.restore_rejects_after_index_loss (l : PLog) (losses : List Loss) (st : Int) (g : Seg)
+    (hg : g ∈ l.s3) (hidx : Loss.index g.base ∈ losses) (hseg : Loss.seg g.base ∉ losses) (hlt : g.base < st) :
+    (restoreAt (losses.foldl lose { l := l }) st).2 = .err := by
+  obtain ⟨pre, post, hsplit⟩ := List.append_of_mem hidx
+  have hpre : ∀ a ∈ pre, a ≠ Loss.seg g.base := fun a ha h => hseg (by rw [hsplit, ← h]; simp [ha])
+  have hpost : ∀ a ∈ post, a ≠ Loss.seg g.base := fun a ha h => hseg (by rw [hsplit, ← h]; simp [ha])
+  rw [hsplit, List.foldl_append, List.foldl_cons]
+  obtain ⟨p1, _⟩ := lose_fold_keeps g.base g rfl pre hpre { l := l } hg
+  generalize pre.foldl lose { l := l } = x1 at p1 ⊢
+  have hmid : g ∈ (lose x1 (.index g.base)).l.s3 ∧ (lose x1 (.index g.base)).noIdx.contains g.base = true := by
+    simp only [lose, loseIndex]
+    split
+    · exact ⟨p1, by simp⟩
+    · rename_i hn
+      refine ⟨p1, ?_⟩
+      apply Classical.byContradiction
+      intro hc
+      apply hn
+      exact ⟨List.any_eq_true.mpr ⟨g, p1, by simp⟩, by simpa using hc⟩
+  obtain ⟨q1, q2⟩ := lose_fold_keeps g.base g rfl post hpost _ hmid.1
+  exact KafVerif.C04.restore_rejects_committed_without_index _ st g q1 (q2 hmid.2) hlt
+
+/-- **C04 (every restored segment has its index).**  Reachable state (`RunOK` history), any losses, any store offset: after a
+SUCCESSFUL restore every registered segment carries a non-empty index table (the one `BuildSegment` wrote), so `Read` never takes
+the no-index fallback. -/
+theorem _root_.KafVerif.C04.restored_segments_indexed (iv : Int) (c : Bool) (start : Int) (ops : List Op)
+    (hr : RunOK (PLog.new iv c start) ops) (losses : List Loss) (st last : Int) (hst : start ≤ st)
+    (hres : (restoreAt (losses.foldl lose { l := ops.foldl step (PLog.new iv c start) }) st).2 = .ok last) :
+    ∀ g ∈ (restoreAt (losses.foldl lose { l := ops.foldl step (PLog.new iv c start) }) st).1.l.segs, g.entries ≠ [] := by
+  obtain ⟨hi, hg, _⟩ := good_reach (PLog.new iv c start) ops (inv_new iv c start) (good_new iv c start) hr
+  obtain ⟨r1, _, _, r4, _⟩ := restore_gapped hi hg losses st last hst hres
+  intro g hgm
+  obtain ⟨_, he, _⟩ := r4 g hgm
+  obtain ⟨hne, _⟩ := seggap_mem r1 g hgm
+  rw [he]
+  cases hb : g.batches with
+  | nil => exact absurd hb hne
+  | cons b t => simp [buildSegment, buildIndex]
+
+/-- four one-record batches (offsets 0..3) in ONE committed segment -/
+def lostIdxLog0 (cache : Bool) : PLog :=
+  ([.append (tiny 1), .append (tiny 2), .append (tiny 3), .append (tiny 4), .flush] : List Op).foldl step (PLog.new 100 cache 0)
+
+/-- … its index object is deleted (the store offset is 4) -/
+def lostIdxLog (cache : Bool) : LLog :=
+  loseIndex { l := lostIdxLog0 cache } 0
+
+/-- the first 61 bytes of a read answer -/
+def firstFrame : ReadOut → Bytes
+  | .data d => d.take 61
+  | _ => []
+
+set_option maxRecDepth 100000 in
+/-- **Witness (seeded change C04-r3-1).**  The coded restore refuses the partition (`err`).  The lenient restore registers the
+segment [0..3] without index entries; `Read(o, 70)` for o = 1, 2, 3 then answers the segment body from its FIRST batch cut at 70
+bytes — it starts with the batch at offset 0, never with the batch holding `o` — with the segment cache on and off; the consumer
+re-sends the same fetch forever.  With the index in place the same reads start at the batch holding the offset. -/
+theorem _root_.KafVerif.C04.lenient_restore_no_progress :
+    (restoreAt (lostIdxLog true) 4).2 = .err ∧ (restoreAt (lostIdxLog false) 4).2 = .err ∧
+    (restoreAtLenient (lostIdxLog true) 4).2 = .ok 3 ∧
+    ((restoreAtLenient (lostIdxLog true) 4).1.l.segs.map fun s => (s.base, s.last, s.entries)) = [(0, 3, [])] ∧
+    (restoreAtLenient (lostIdxLog true) 4).1.l.hw = 4 ∧
+    (∀ o ∈ [1, 2, 3], ∀ cache ∈ [true, false],
+      firstFrame (read (restoreAtLenient (lostIdxLog cache) 4).1.l o 70).2 = (patch ((parse (tiny 1)).getD ⟨0, 0, 0, []⟩) 0).bytes) ∧
+    firstFrame (read (restoreAt { l := lostIdxLog0 false } 4).1.l 1 70).2 = (patch ((parse (tiny 2)).getD ⟨0, 0, 0, []⟩) 1).bytes ∧
+    firstFrame (read (restoreAt { l := lostIdxLog0 true } 4).1.l 3 70).2 = (patch ((parse (tiny 4)).getD ⟨0, 0, 0, []⟩) 3).bytes := by
   decide
 
 /-! ### the code before the fix -/
